@@ -7,10 +7,11 @@ H = "c19.c"
 
 def jobs(tier):
     J = []
-    for e in ("h_lu_row_scaling", "h_lu_pivot_rule", "h_lu_zero_pivot"):
+    for e in ("h_lu_row_scaling", "h_lu_row_scaling3", "h_lu_pivot_rule", "h_lu_zero_pivot"):
         J.append(V.Job(e[2:], H, e, ["vnacommon_lu.c"], stubs=["verif_libc.c"], unwind=6, kind="bounded", canary=True,
                        functions=["_vnacommon_lu"],
                        bound={"h_lu_row_scaling": "2x2 witness matrix, rows scaled by 2^(10k), k in -3..3 (49 scalings)",
+                              "h_lu_row_scaling3": "3x3 witness matrix, each row scaled by 2^(10k), k in -3..3 (21 variants)",
                               "h_lu_pivot_rule": "all 256 2x2 matrices with entries from {1,2,3,100} (exhaustive; a symbolic version does not finish)",
                               "h_lu_zero_pivot": "all finite 2x2 matrices with a zero first column or a zero first row"}[e],
                        timeout=200, cbmc_flags=["--no-leak"]))
